@@ -8,7 +8,7 @@ COMMON_TRUSTED_BASE = [
 
 PROPS = {}
 NOT_CLAIMED = {}
-HOOK_COMMITS = ["7ec16b3d", "7b24226a", "84b9c3d7", "6b48c09b"]
+HOOK_COMMITS = ["7ec16b3d", "7b24226a", "84b9c3d7", "6b48c09b", "afcbabcb"]
 
 PROPS["C14"] = dict(
     level="proof",
@@ -218,6 +218,42 @@ PROPS["C04"] = dict(
     exhaustive_note="every fault position k for each listed job (thorough tier; quick tier subsamples jobs with > 60 vertices)",
     trusted_base=["Model/GeomBuilder.v follows BuffersBuilder in geometry_builder.rs; tools/gen.py skeleton translator"],
     assumptions=["vertex_offset chosen by the user does not overflow u32 (not checked by lyon)"],
+)
+
+PROPS["C05"] = dict(
+    level="translation_validation",
+    level_text="Two parts. (1) PROVED (Props/C05.v): the exact oracle that decides every recorded stroke means what it says "
+               "(accepted => every vertex position is position_on_path + normal * half_width in f32 arithmetic and within the "
+               "allowed distance of a point of the path, every triangle has three distinct ids returned before); "
+               "add_edge_triangles, for ALL ids and fold flags, emits at most two triangles, each with three distinct ids "
+               "taken from the side vertices of the two endpoints; the miter limit test, with the factor REGENERATED from "
+               "stroke.rs on every run, is |normal| <= miter_limit; the reach factors the oracle uses are theorems about lines "
+               "tangent to the disc of radius half_width (corner distance^2 (1 + n1.n2) = 2 h^2; right angle: sqrt 2; a miter "
+               "tip passing the limit test is within miter_limit half-widths; a miter-clip corner within sqrt(limit^2 + 1)). "
+               "(2) VALIDATED per run: a recording StrokeGeometryBuilder reads every accessor of every vertex through every "
+               "entry point x join x caps x width x miter limit x tolerance x fixed / variable width, on degenerate and random "
+               "paths; no panic, Ok result, finite values, distinct valid triangle ids, position identity, reach, advancement "
+               ">= 0, the source names an endpoint / edge of the input and position_on_path is where it says; add_edge_triangles "
+               "(hook) equals the model on random id / fold combinations.",
+    level_note="That the stroker emits accepted meshes for all inputs is explored, not proved. The reach oracle reads 'join / "
+               "cap reach' as: 1 for round / bevel / butt, sqrt 2 for square caps and for inner corners of turns up to 90 "
+               "degrees, miter_limit for miter, sqrt(limit^2 + 1) for miter-clip, widened by the tilt asin(rate) of the sides "
+               "under variable width; plus the tolerance. Known findings K12, K13 (variable width).",
+    technique="Coq-verified exact oracle + theorems on the decision logic + exploration through a recording builder",
+    coq_targets=["theories/Props/C05.vo", "theories/Run/C05.vo"],
+    props_file="theories/Props/C05.v",
+    props_module="Props.C05",
+    harness=[dict(sub="c05", profile="debug"), dict(sub="c05", profile="release")],
+    rule="paths: structured (repeated points, 1e-4 / 1e5 segments, hairpin, exact back-track, closed single segment, empty, "
+         "single point open / closed, closing onto the start, zig-zag on short segments, collinear with a 180 degree turn), "
+         "random lattice polygons, random curved paths, random real-valued polylines; 0-2 attributes (attribute 0 = width "
+         "factor 0.25..3); entry points tessellate_path, tessellate, tessellate_with_ids, tessellate_polygon, builder, "
+         "builder_with_attributes; joins x start cap x end cap; width 0.01..10; miter limit 1..10; tolerance 0.01..0.5; "
+         "strokes of up to 60 vertices go to the Coq oracle (capped); non-trivial = some sub-path with two segments or more",
+    exhaustive_note="none (random inputs); add_edge_triangles is proved for all inputs",
+    trusted_base=["Checker/StrokeSpec.v oracle and models follow stroke.rs (add_edge_triangles, miter_limit_is_exceeded, "
+                  "StrokeVertex::position); tools/gen.py miter factor regex; harness resolution of ids (harness/src/c05.rs)"],
+    assumptions=["finite coordinates", "width, tolerance > 0, miter limit >= 1", "variable width: attribute 0 > 0"],
 )
 
 PROPS["C07"] = dict(
